@@ -414,11 +414,7 @@ func (r *runner) run() jobStats {
 			o := r.one(ctx, qCtx, i, pass)
 			st.execs++
 			if o.panicked != "" {
-				kind := s.Kind
-				if kind == "" {
-					kind = "query"
-				}
-				agg.direct("panic-"+kind, fmt.Sprintf("cache.Exec panicked on a %s message: %s", kindText(s), o.panicked),
+				agg.direct("panic-"+keyKind(s), fmt.Sprintf("cache.Exec panicked on a message (%s): %s", kindText(s), o.panicked),
 					r.caseFor([]int{i}), map[string]any{"panic": o.panicked, "stack": o.stack})
 				continue
 			}
@@ -434,14 +430,14 @@ func (r *runner) run() jobStats {
 			if s.Kind != "" { // bypass rule
 				switch {
 				case o.reached == 0:
-					agg.direct("bypass-"+s.Kind+"-not-forwarded",
+					agg.direct("bypass-"+keyKind(s)+"-not-forwarded",
 						fmt.Sprintf("a %s message did not reach the next plugin (pass %d)", kindText(s), pass), r.caseFor([]int{i}), nil)
 				case fromCache:
 					idx := []int{i}
 					if o.marker >= 0 && o.marker < n && o.marker != i {
 						idx = []int{o.marker, i}
 					}
-					agg.direct("bypass-"+s.Kind+"-served-from-cache",
+					agg.direct("bypass-"+keyKind(s)+"-served-from-cache",
 						fmt.Sprintf("a %s message was answered from the cache (marker %d, pass %d) instead of bypassing it", kindText(s), o.marker, pass), r.caseFor(idx), nil)
 				default:
 					st.bypassOK++
@@ -480,7 +476,7 @@ func (r *runner) run() jobStats {
 			a := &r.specs[m]
 			switch {
 			case a.Kind != "":
-				agg.direct("bypass-"+a.Kind+"-answer-cached",
+				agg.direct("bypass-"+keyKind(a)+"-answer-cached",
 					fmt.Sprintf("the answer given to a %s message was stored and later served to an ordinary query", kindText(a)), r.caseFor([]int{m, i}), nil)
 			case sameQuestion(a, s):
 				st.shared++ // same question (differs only in ID / RD / client OPT): sharing allowed
@@ -494,6 +490,17 @@ func (r *runner) run() jobStats {
 	st.normal /= 2
 	agg.merge(r.cov)
 	return st
+}
+
+// keyKind is the bypass class used in finding keys.
+func keyKind(s *qspec) string {
+	switch s.Kind {
+	case "qd0", "qd2", "qd3":
+		return "qdcount"
+	case "":
+		return "query"
+	}
+	return s.Kind
 }
 
 func kindText(s *qspec) string {
@@ -539,7 +546,7 @@ func (r *runner) caseFor(idx []int) replayCase {
 func main() {
 	rep = evid.New("C04", "exploration")
 	caselog = evid.OpenCaseLog()
-	debug.SetGCPercent(400) // the live heap is the caches under test; plenty of memory, few cores to spare
+	debug.SetGCPercent(400)                        // the live heap is the caches under test; plenty of memory, few cores to spare
 	if p := os.Getenv("C04_CPUPROFILE"); p != "" { // development aid
 		if f, err := os.Create(p); err == nil {
 			_ = pprof.StartCPUProfile(f)
